@@ -154,7 +154,7 @@ void h_substdi(void)
 #ifdef P_SUBSTDO2
 #include <errno.h>
 #include "substdio.h"
-substdio g_so; char *g_x; unsigned g_size; char *g_ub; unsigned long g_ulen; unsigned long g_copied, g_len0;
+substdio g_so; char *g_x; unsigned g_size; char *g_ub; unsigned long g_ulen; unsigned long g_copied, g_len0, g_aw_done, g_aw_len;
 #define IN_X(ptr, cnt) (__CPROVER_same_object((ptr), g_x) && __CPROVER_POINTER_OFFSET(ptr) + (unsigned long)(cnt) <= g_size)
 #define IN_U(ptr, cnt) (__CPROVER_same_object((ptr), g_ub) && __CPROVER_POINTER_OFFSET(ptr) + (unsigned long)(cnt) <= g_ulen)
 void byte_copy(char *to, unsigned int n, char *from)
@@ -165,6 +165,10 @@ ssize_t my_write(int fd, const char *b, size_t n)
   V_ASSERT(n > 0 && (IN_X(b, n) || IN_U(b, n)), "C20: write() is handed only memory inside the substdio buffer or the caller's data");
   V_ASSUME(-1 <= w && w <= (long)n);
   if (w == -1) V_HAVOC_ERRNO();
+#ifdef AW_FUNC
+  V_ASSERT(b == g_x + g_aw_done && n == g_aw_len - g_aw_done, "C06,C20: allwrite hands every byte of its buffer to the write operation exactly once and in order, whatever short counts the operation returns (nothing is re-sent, nothing is skipped)");
+  if (w > 0) g_aw_done += (unsigned long)w;
+#endif
   return w;
 }
 #include "substdo.c"
@@ -179,7 +183,7 @@ void h_substdo2(void)
   g_ulen = ND_ULONG(); V_ASSUME(1 <= g_ulen && g_ulen <= 0xffffffffUL); g_ub = __CPROVER_allocate(g_ulen, 0);
   len = ND_ULONG(); V_ASSUME(len <= g_ulen); g_copied = 0; g_len0 = len;
   if (which == 0) r = substdio_put(&g_so, g_ub, len); else if (which == 1) { r = substdio_bput(&g_so, g_ub, len); if (r == 0) V_ASSERT(g_copied == len, "C20: supporting: substdio_bput passes every byte through the buffer exactly once"); }
-  else if (which == 2) r = substdio_flush(&g_so); else if (which == 5) { V_ASSUME(len <= g_size); r = allwrite(my_write, 1, g_x, len); } else r = substdio_putflush(&g_so, g_ub, len);
+  else if (which == 2) r = substdio_flush(&g_so); else if (which == 5) { V_ASSUME(len <= g_size); g_aw_done = 0; g_aw_len = len; r = allwrite(my_write, 1, g_x, len); if (r == 0) V_ASSERT(g_aw_done == len, "C06,C20: allwrite reports success only after the whole buffer was written"); } else r = substdio_putflush(&g_so, g_ub, len);
   V_ASSERT(r == 0 || r == -1, "C20: supporting");
   V_ASSERT(g_so.x == g_x && 0 <= g_so.p && g_so.p <= g_so.n && g_so.n == (int)g_size, "C20: the substdio output index stays within the buffer after every operation");
   V_COVER(r == 0 && which == 1 && len > 9000); V_COVER(r == 0 && which == 0 && len > 9000 && g_so.p > 0);
